@@ -43,7 +43,7 @@ func main() {
 					items = append(items, oracle.KPItem{Kind: oracle.KPGlue, W: float64(rng.Intn(2) + 1), Y: float64(1 + rng.Intn(2)), Z: float64(rng.Intn(2))})
 				}
 				items = append(items, oracle.KPItem{Kind: oracle.KPBox, W: float64(1 + rng.Intn(3))})
-				if rng.Intn(4) == 0 {
+				if len(os.Args) > 5 && rng.Intn(4) == 0 {
 					items = append(items, oracle.KPItem{Kind: oracle.KPPenalty, W: 1, P: 50, Flagged: true}, oracle.KPItem{Kind: oracle.KPBox, W: float64(1 + rng.Intn(2))})
 				}
 			}
